@@ -23,6 +23,18 @@ not); a panic is still compared as a panic.
   tie_stats_update          Gen.ZipWriterStats.update                 (hasher fold, checked `+=` of the byte count)
   tie_write                 Gen.ZipWriter.write buf = Model.writeData buf     (buf ≠ [], one `write` call)
   write_accounts_accepted   `stats.update(&buf[..count])` uses the count the encoder ACCEPTED (any `ext.accept`)
+  sim_end_extra_data / tie_end_extra_data     Gen.ZipWriter.end_extra_data  ~ Model.endExtraData
+  sim_finish_file / tie_finish_file           Gen.ZipWriter.finish_file     ~ Model.finishFile
+
+Methods that READ sink positions (`stream_position()`) or call such methods are tied by a REFINEMENT
+(`Refines x y`, and `Sim φ P x y` = refinement + a postcondition `P` on the values `x` returns, which a
+caller needs to carry its own hypotheses through the call): `x` and `y` agree - same I/O calls, outcome,
+value, device - on every run on which `x` does not stop with the distinguished panic `Rs.S.OVF`.  That
+panic is raised only by `Rs.S.position` when the model device's position does not fit `u64` (a real
+sink's position IS a `u64`; the model's `Dev` counts in `Nat`), so for every device below 2^64 the two
+sides are equal.  `Sim.refines` / `Sim.post` project the two halves.  The postcondition used here is the
+frame `files.map fkey` unchanged (`fkey` blanks crc32 / sizes / data_start - the only fields the
+methods patch in place).
 
 Hypotheses, and why (each is where the model idealises):
   * `buf.length < 2^63` - a Rust slice;  `bytes_written + buf.length < 2^64` - the model counts in `Nat`,
@@ -34,6 +46,9 @@ Hypotheses, and why (each is where the model idealises):
   * `ext.accept b = b.length` (`tie_write`) - the model's `writeData` is `write_all`: it never sees an
     encoder that takes fewer bytes than offered.  `write_accounts_accepted` is the obligation for the
     general case.
+  * per open entry (the last of `files`): `extra_field.len() ≤ isize::MAX` (a Rust `Vec`),
+    `data_start + extra_field.len() < 2^64`, `header_start + 34 + file_name.len() < 2^64` - the source
+    computes these positions in checked `u64`, the model in `Nat`.
 
 TRUSTED VOCABULARY (external code; `Basic/RsS.lean` gives each name the meaning of the model's existing
 treatment in `Model/Writer.lean` - `Inner`, `EncState`, `WExt`, `switchTo`, `emit`, `emitFinish`):
@@ -44,6 +59,18 @@ treatment in `Model/Writer.lean` - `Inner`, `EncState`, `WExt`, `switchTo`, `emi
     ZipCrypto layer buffers the bytes, an encoder consumes `ext.accept buf ≤ buf.len()` bytes (its output
     reaches the sink when it is finished);
   * `inner.is_closed()`, `inner.get_plain()` (panics unless `Storer(Unencrypted)`);
+  * `let writer = inner.get_plain()`: `writer.stream_position()` is `Rs.S.position` (one `seek(Current(0))`
+    call; `OVF` panic beyond u64, see above), `writer.seek(SeekFrom::Start(p))`, `writer.write_all(bs)`,
+    `writer.write_uNN::<LittleEndian>(v)` are the device primitives; a translated serialiser called with
+    `writer` (`update_local_file_header(writer, file)?`, tier T3) is replayed action by action
+    (`Rs.S.runW`: its log of writes / seeks, then its own outcome);
+  * `inner.switch_to(method, level)` is the model's `switchTo` (`Rs.S.switch_to`, `switchTo_via`: finish
+    the running encoder - `ext.compress` of everything it consumed goes to the sink or into the ZipCrypto
+    buffer, with the destructor's second attempt of flate2 / bzip2 after a failed write -, level
+    check, new encoder); the method value is read through `Tie.Types.methodOf` (`Tie/WriterVocab.lean`);
+  * `ZipCryptoWriter::finish(crc32)` is `Rs.S.zc_finish` (panic below 12 buffered bytes, check byte,
+    `ext.zcEncrypt`, `write_all`, `flush`); `GenericZipWriter::Storer(MaybeEncrypted::Encrypted(w))` is
+    `Inner.storer (some w)`, `…::Unencrypted(sink)` is `Inner.storer none`;
   * `mem::replace(&mut self.inner, Closed)`: the old value is moved out; DROPPING it is not modelled (a
     flate2 / bzip2 encoder would flush into the sink from its destructor; the model covers that only
     for `Drop for ZipWriter`, `Model.dropInner`);
@@ -314,5 +341,873 @@ theorem write_accounts_accepted (ext : Rs.S.Ext) (g : Gen.ZipWriter) (buf : Byte
   unfold Gen.ZipWriter.write
   ssimp [hwf, hin, hx, Rs.S.ref_mut, Rs.S.enc_write, slice_take buf _ hle (by omega), hup, gt_thr, haddn, hng,
     decide_false]
+
+/-- `attempt` of a sequence: the first failing step ends it -/
+theorem attempt_bind_bind {α β γ} (x : M α) (f : α → M β) (k : Except ZErr β → M γ) :
+    (M.attempt (x >>= f) >>= k) = (M.attempt x >>= fun r => match r with
+      | .ok a => M.attempt (f a) >>= k
+      | .error e => k (.error e)) := by
+  apply M.ext; intro fa d
+  simp only [M.bind_apply, M.attempt]
+  rcases h : x fa d with ⟨o, d'⟩
+  cases o <;> simp only []
+  rename_i a
+  rcases h2 : f a fa d' with ⟨o2, d2⟩
+  cases o2 <;> simp only [M.bind_apply, M.attempt, h2]
+
+theorem attempt_pure_bind {α γ} (a : α) (k : Except ZErr α → M γ) :
+    (M.attempt (pure a) >>= k) = k (.ok a) := rfl
+
+/-! ### refinement up to the `u64` position panic -/
+
+/-- `x` agrees with `y` (outcome up to the panic-site string, value, device) on every run on which `x`
+does not stop with the distinguished panic `Rs.S.OVF` (a sink position that does not fit `u64`). -/
+def Refines {α} (x y : M α) : Prop :=
+  ∀ fa d, (x fa d).1 = .panic Rs.S.OVF ∨ erase x fa d = erase y fa d
+
+theorem Refines.of_eq {α} {x y : M α} (h : erase x = erase y) : Refines x y :=
+  fun fa d => Or.inr (by rw [h])
+
+theorem Refines.ovf {α β} (f : α → M β) (y : M β) : Refines (M.panic Rs.S.OVF >>= f) y :=
+  fun fa d => Or.inl rfl
+
+theorem Refines.ovf_panic {β} (y : M β) : Refines (M.panic Rs.S.OVF) y :=
+  fun fa d => Or.inl rfl
+
+theorem Refines.bind {α β} {x y : M α} {f g : α → M β} (hx : Refines x y) (hf : ∀ a, Refines (f a) (g a)) :
+    Refines (x >>= f) (y >>= g) := by
+  intro fa d
+  rcases hx fa d with h | h
+  · left
+    simp only [M.bind_apply]
+    rcases hxd : x fa d with ⟨o, d'⟩
+    rw [hxd] at h
+    simp only at h
+    subst h
+    rfl
+  · simp only [erase] at h
+    rcases hxd : x fa d with ⟨o, d'⟩
+    rcases hyd : y fa d with ⟨o', d''⟩
+    rw [hxd, hyd] at h
+    simp only [Prod.mk.injEq] at h
+    obtain ⟨ho, hd⟩ := h
+    subst hd
+    cases o with
+    | ok a =>
+      cases o' with
+      | ok a' =>
+        simp only [eraseOut, Out.ok.injEq] at ho
+        subst ho
+        rcases hf a fa d' with h | h
+        · left; simp only [M.bind_apply, hxd]; exact h
+        · right; simp only [erase, M.bind_apply, hxd, hyd] at h ⊢; exact h
+      | err e => simp only [eraseOut] at ho; cases ho
+      | panic s => simp only [eraseOut] at ho; cases ho
+    | err e =>
+      cases o' with
+      | ok a' => simp only [eraseOut] at ho; cases ho
+      | err e' =>
+        simp only [eraseOut, Out.err.injEq] at ho
+        subst ho
+        right; simp only [erase, M.bind_apply, hxd, hyd]
+      | panic s => simp only [eraseOut] at ho; cases ho
+    | panic s =>
+      cases o' with
+      | ok a' => simp only [eraseOut] at ho; cases ho
+      | err e' => simp only [eraseOut] at ho; cases ho
+      | panic s' => right; simp only [erase, M.bind_apply, hxd, hyd, eraseOut]
+
+theorem Refines.refl {α} (x : M α) : Refines x x := fun _ _ => Or.inr rfl
+
+/-- peel a common first step -/
+theorem Refines.congr {α β} (x : M α) {f g : α → M β} (hf : ∀ a, Refines (f a) (g a)) :
+    Refines (x >>= f) (x >>= g) := Refines.bind (Refines.refl x) hf
+
+/-! ### `switch_to`: the model's `switchTo` only touches `inner` -/
+
+theorem switchTo_frame (ext : WExt) (m : Method) (l : Option Int) (s : WState) :
+    Model.switchTo ext m l s =
+      (Model.switchTo ext m l { WState.init with inner := s.inner } >>= fun p =>
+        pure (p.1, { s with inner := p.2.inner })) := by
+  obtain ⟨inner, files, ss, sb, sh, wf, wx, co, wr, cm⟩ := s
+  unfold Model.switchTo
+  cases inner with
+  | closed => simp only [Inner.currentCompression, WState.init, pure_bind]
+  | storer enc =>
+    simp only [Inner.currentCompression, WState.init]
+    by_cases h1 : (Method.stored == m) = true
+    · simp only [h1, ↓reduceIte, pure_bind]
+    · simp only [h1, ↓reduceIte]
+      cases m <;> simp only [levelRange] <;> (try split) <;> (try simp only [pure_bind]) <;> (try split) <;> (try simp only [pure_bind])
+  | compressor cm cl enc pending =>
+    simp only [Inner.currentCompression, WState.init]
+    by_cases h1 : (cm == m) = true
+    · simp only [h1, ↓reduceIte, pure_bind]
+    · simp only [h1, ↓reduceIte]
+      cases m <;> simp only [levelRange, emitFinish, Bool.false_eq_true, ↓reduceIte] <;> cases enc <;>
+        simp only [bind_assoc, pure_bind] <;>
+        (try (refine bind_congr fun r => ?_
+              cases r <;> simp only [pure_bind, bind_assoc] <;> (try split) <;> (try simp only [pure_bind, bind_assoc]) <;>
+                (try split) <;> (try simp only [pure_bind, bind_assoc]))) <;>
+        (try split) <;> (try simp only [pure_bind, bind_assoc])
+
+theorem switchTo_via (ext : Rs.S.Ext) (m : Gen.CompressionMethod) (l : Option Int32) (s : WState) :
+    Model.switchTo ext.toWExt (Tie.Types.methodOf m) (l.map Int32.toInt) s =
+      (Rs.S.switch_to ext s.inner m l >>= fun p => pure (p.1, { s with inner := p.2 })) := by
+  rw [switchTo_frame]
+  simp only [Rs.S.switch_to, bind_assoc, pure_bind]
+  rfl
+
+/-! ### sink actions of a translated serialiser, replayed (`Rs.S.runW`) -/
+
+/-- a list of sink actions, each under `attempt`; `F` gets the first device error or `ok` -/
+def actsG {β : Type} : List Rs.Act → (Except ZErr Unit → M β) → M β
+  | [], F => F (.ok ())
+  | .seek p :: as, F => M.attempt (M.seek (.start p.toNat)) >>= fun r => match r with
+    | .ok _ => actsG as F
+    | .error e => F (.error e)
+  | .write b :: as, F => M.attempt (M.writeAll b) >>= fun r => match r with
+    | .ok _ => actsG as F
+    | .error e => F (.error e)
+
+theorem attempt_replay {β : Type} (acts : List Rs.Act) (F : Except ZErr Unit → M β) :
+    (M.attempt (Rs.S.replay acts) >>= F) = actsG acts F := by
+  induction acts with
+  | nil => rfl
+  | cons a as ih =>
+    cases a with
+    | write b =>
+      simp only [Rs.S.replay, actsG, attempt_bind_bind]
+      refine bind_congr fun r => ?_
+      cases r <;> simp only [ih]
+    | seek p =>
+      simp only [Rs.S.replay, actsG, attempt_bind_bind]
+      refine bind_congr fun r => ?_
+      cases r <;> simp only [ih]
+
+theorem ioActs_eq {β : Type} (s : WState) (acts : List Rs.Act) (k : Unit → M (Except ZErr β × WState)) :
+    ioActs s acts k = actsG acts (fun r => match r with
+      | .ok _ => k ()
+      | .error e => pure (.error e, s)) := by
+  induction acts with
+  | nil => rfl
+  | cons a as ih =>
+    cases a with
+    | write b =>
+      simp only [ioActs, actsG, Model.io, ih]
+      refine bind_congr fun r => ?_
+      cases r <;> rfl
+    | seek p =>
+      simp only [ioActs, actsG, Model.io, ih]
+      refine bind_congr fun r => ?_
+      cases r <;> rfl
+
+theorem actsG_bind {β γ : Type} (acts : List Rs.Act) (F : Except ZErr Unit → M β) (g : β → M γ) :
+    (actsG acts F >>= g) = actsG acts (fun r => F r >>= g) := by
+  induction acts with
+  | nil => rfl
+  | cons a as ih =>
+    cases a <;> simp only [actsG, bind_assoc] <;> refine bind_congr fun r => ?_ <;> cases r <;> simp only [ih]
+
+theorem Refines.actsG {β : Type} (acts : List Rs.Act) {F F' : Except ZErr Unit → M β}
+    (h : ∀ r, Refines (F r) (F' r)) : Refines (actsG acts F) (actsG acts F') := by
+  induction acts with
+  | nil => exact h _
+  | cons a as ih =>
+    cases a <;> simp only [WriterSM.actsG] <;> refine Refines.congr _ fun r => ?_ <;> cases r
+    · exact h _
+    · exact ih
+    · exact h _
+    · exact ih
+
+
+/-! ### postconditions of `M` computations (frame facts carried through a callee) -/
+
+/-- every value the computation can return satisfies `Q` -/
+def Post {α} (m : M α) (Q : α → Prop) : Prop := ∀ fa d a d', m fa d = (.ok a, d') → Q a
+
+theorem Post.pure {α} {Q : α → Prop} {a : α} (h : Q a) : Post (pure a : M α) Q := by
+  intro fa d a' d' he
+  cases he
+  exact h
+
+theorem Post.panic {α} {Q : α → Prop} (s : String) : Post (M.panic s : M α) Q := by
+  intro fa d a' d' he
+  cases he
+
+theorem Post.bind {α β} {Q : β → Prop} {x : M α} {f : α → M β} (h : ∀ a, Post (f a) Q) : Post (x >>= f) Q := by
+  intro fa d b d' he
+  simp only [M.bind_apply] at he
+  rcases hx : x fa d with ⟨o, d1⟩
+  rw [hx] at he
+  cases o with
+  | ok a => exact h a fa d1 b d' he
+  | err e => cases he
+  | panic s => cases he
+
+theorem Post.mono {α} {Q Q' : α → Prop} {m : M α} (h : Post m Q) (hq : ∀ a, Q a → Q' a) : Post m Q' :=
+  fun fa d a d' he => hq a (h fa d a d' he)
+
+/-- peel a callee: its tie, its postcondition, and the tie of the rest for every value satisfying the
+postcondition -/
+theorem Refines.bind_map_post {α α' β} (φ : α → α') (P : α → Prop) {X : M α} {Y : M α'}
+    {F : α → M β} {G : α' → M β} (hX : Refines (φ <$> X) Y) (hP : Post X P)
+    (hF : ∀ a, P a → Refines (F a) (G (φ a))) : Refines (X >>= F) (Y >>= G) := by
+  intro fa d
+  rcases hxd : X fa d with ⟨o, d'⟩
+  have hm : (φ <$> X) fa d = (match o with | .ok a => .ok (φ a) | .err e => .err e | .panic s => .panic s, d') := by
+    simp only [map_eq_pure_bind, M.bind_apply, hxd]
+    cases o <;> rfl
+  rcases hX fa d with h | h
+  · left
+    rw [hm] at h
+    cases o with
+    | ok a => cases h
+    | err e => cases h
+    | panic s =>
+      simp only [Out.panic.injEq] at h
+      subst h
+      simp only [M.bind_apply, hxd]
+  · simp only [erase, hm] at h
+    rcases hyd : Y fa d with ⟨o', d''⟩
+    rw [hyd] at h
+    simp only [Prod.mk.injEq] at h
+    obtain ⟨ho, hd⟩ := h
+    subst hd
+    cases o with
+    | ok a =>
+      cases o' with
+      | ok a' =>
+        simp only [eraseOut, Out.ok.injEq] at ho
+        subst ho
+        rcases hF a (hP fa d a d' hxd) fa d' with h | h
+        · left; simp only [M.bind_apply, hxd]; exact h
+        · right; simp only [erase, M.bind_apply, hxd, hyd] at h ⊢; exact h
+      | err e => simp only [eraseOut] at ho; cases ho
+      | panic s => simp only [eraseOut] at ho; cases ho
+    | err e =>
+      cases o' with
+      | ok a' => simp only [eraseOut] at ho; cases ho
+      | err e' =>
+        simp only [eraseOut, Out.err.injEq] at ho
+        subst ho
+        right; simp only [erase, M.bind_apply, hxd, hyd]
+      | panic s => simp only [eraseOut] at ho; cases ho
+    | panic s =>
+      cases o' with
+      | ok a' => simp only [eraseOut] at ho; cases ho
+      | err e' => simp only [eraseOut] at ho; cases ho
+      | panic s' => right; simp only [erase, M.bind_apply, hxd, hyd, eraseOut]
+
+/-- what no method changes of an entry once it is in `files`, except through the listed fields -/
+def fkey (f : Gen.ZipFileData) : Gen.ZipFileData :=
+  { f with crc32 := 0, compressed_size := 0, uncompressed_size := 0, data_start := 0 }
+
+theorem setLast_fkey (l : List Gen.ZipFileData) (x y : Gen.ZipFileData) (hl : l.getLast? = some y)
+    (hk : fkey x = fkey y) : (Rs.setLast l x).map fkey = l.map fkey := by
+  unfold Rs.setLast
+  have hr : l.reverse.head? = some y := by rw [List.head?_reverse]; exact hl
+  cases hrev : l.reverse with
+  | nil => rw [hrev] at hr; cases hr
+  | cons z rest =>
+    rw [hrev] at hr
+    simp only [List.head?_cons, Option.some.injEq] at hr
+    subst hr
+    have : l = (z :: rest).reverse := by rw [← hrev, List.reverse_reverse]
+    rw [this]
+    simp only [List.reverse_cons, List.map_append, List.map_cons, List.map_nil, hk]
+
+/-! ### simulation: refinement of the abstracted computation + a postcondition on the concrete values -/
+
+/-- On every run on which `X` does not stop with the `u64`-position panic `OVF`: `φ <$> X` and `Y` agree
+(outcome up to the panic-site string, value, device), and a value returned by `X` satisfies `P`. -/
+def Sim {α α'} (φ : α → α') (P : α → Prop) (X : M α) (Y : M α') : Prop :=
+  ∀ fa d, (X fa d).1 = .panic Rs.S.OVF ∨
+    (erase (φ <$> X) fa d = erase Y fa d ∧ ∀ a d', X fa d = (.ok a, d') → P a)
+
+theorem map_apply {α α'} (φ : α → α') (X : M α) (fa : Option Nat) (d : Dev) :
+    (φ <$> X) fa d = (match (X fa d).1 with | .ok a => .ok (φ a) | .err e => .err e | .panic s => .panic s, (X fa d).2) := by
+  simp only [map_eq_pure_bind, M.bind_apply]
+  rcases X fa d with ⟨o, d'⟩
+  cases o <;> rfl
+
+theorem Sim.refines {α α'} {φ : α → α'} {P : α → Prop} {X : M α} {Y : M α'} (h : Sim φ P X Y) :
+    Refines (φ <$> X) Y := by
+  intro fa d
+  rcases h fa d with h | ⟨h, _⟩
+  · left; rw [map_apply, h]
+  · right; exact h
+
+theorem Sim.post {α α'} {φ : α → α'} {P : α → Prop} {X : M α} {Y : M α'} (h : Sim φ P X Y) : Post X P := by
+  intro fa d a d' he
+  rcases h fa d with h | ⟨_, h⟩
+  · rw [he] at h; cases h
+  · exact h a d' he
+
+theorem Sim.leaf {α α'} {φ : α → α'} {P : α → Prop} {a : α} {b : α'} (hb : φ a = b) (hp : P a) :
+    Sim φ P (pure a) (pure b) := by
+  intro fa d
+  right
+  refine ⟨by subst hb; rfl, ?_⟩
+  intro a' d' he
+  cases he
+  exact hp
+
+theorem Sim.panic {α α'} {φ : α → α'} {P : α → Prop} (s s' : String) :
+    Sim φ P (M.panic s : M α) (M.panic s' : M α') := by
+  intro fa d
+  right
+  exact ⟨rfl, fun a d' he => by cases he⟩
+
+theorem Sim.ovf {α α' β} {φ : α → α'} {P : α → Prop} (f : β → M α) (Y : M α') :
+    Sim φ P (M.panic Rs.S.OVF >>= f) Y := fun fa d => Or.inl rfl
+
+theorem Sim.mono {α α'} {φ : α → α'} {P P' : α → Prop} {X : M α} {Y : M α'} (h : Sim φ P X Y)
+    (hp : ∀ a, P a → P' a) : Sim φ P' X Y := by
+  intro fa d
+  rcases h fa d with h | ⟨h1, h2⟩
+  · exact Or.inl h
+  · exact Or.inr ⟨h1, fun a d' he => hp a (h2 a d' he)⟩
+
+/-- a callee (or any first step) with its own abstraction `φ1` and postcondition `P1` -/
+theorem Sim.bind {α1 α1' α α'} {φ1 : α1 → α1'} {P1 : α1 → Prop} {φ : α → α'} {P : α → Prop}
+    {X : M α1} {Y : M α1'} {F : α1 → M α} {G : α1' → M α'}
+    (hX : Sim φ1 P1 X Y) (hF : ∀ a, P1 a → Sim φ P (F a) (G (φ1 a))) : Sim φ P (X >>= F) (Y >>= G) := by
+  intro fa d
+  rcases hxd : X fa d with ⟨o, d'⟩
+  rcases hX fa d with h | ⟨h, hp⟩
+  · left
+    rw [hxd] at h
+    simp only at h
+    subst h
+    simp only [M.bind_apply, hxd]
+  · rw [erase, map_apply, hxd] at h
+    simp only [erase] at h
+    rcases hyd : Y fa d with ⟨o', d''⟩
+    rw [hyd] at h
+    simp only [Prod.mk.injEq] at h
+    obtain ⟨ho, hd⟩ := h
+    subst hd
+    cases o with
+    | ok a =>
+      cases o' with
+      | ok a' =>
+        simp only [eraseOut, Out.ok.injEq] at ho
+        subst ho
+        rcases hF a (hp a d' hxd) fa d' with h | ⟨h1, h2⟩
+        · left; simp only [M.bind_apply, hxd]; exact h
+        · right
+          refine ⟨?_, ?_⟩
+          · simp only [erase, map_apply, M.bind_apply, hxd, hyd] at h1 ⊢; exact h1
+          · intro b db he
+            simp only [M.bind_apply, hxd] at he
+            exact h2 b db he
+      | err e => simp only [eraseOut] at ho; cases ho
+      | panic s => simp only [eraseOut] at ho; cases ho
+    | err e =>
+      cases o' with
+      | ok a' => simp only [eraseOut] at ho; cases ho
+      | err e' =>
+        simp only [eraseOut, Out.err.injEq] at ho
+        subst ho
+        right
+        refine ⟨by simp only [erase, map_apply, M.bind_apply, hxd, hyd], ?_⟩
+        intro b db he
+        simp only [M.bind_apply, hxd] at he
+        cases he
+      | panic s => simp only [eraseOut] at ho; cases ho
+    | panic s =>
+      cases o' with
+      | ok a' => simp only [eraseOut] at ho; cases ho
+      | err e' => simp only [eraseOut] at ho; cases ho
+      | panic s' =>
+        right
+        refine ⟨by simp only [erase, map_apply, M.bind_apply, hxd, hyd, eraseOut], ?_⟩
+        intro b db he
+        simp only [M.bind_apply, hxd] at he
+        cases he
+
+theorem Sim.id_refl {α} (x : M α) : Sim (fun a : α => a) (fun _ => True) x x := by
+  intro fa d
+  right
+  refine ⟨?_, fun _ _ _ => trivial⟩
+  simp only [erase, map_apply]
+  rcases x fa d with ⟨o, d'⟩
+  cases o <;> rfl
+
+/-- peel a common first step -/
+theorem Sim.congr {β α α'} {φ : α → α'} {P : α → Prop} (x : M β) {f : β → M α} {g : β → M α'}
+    (h : ∀ r, Sim φ P (f r) (g r)) : Sim φ P (x >>= f) (x >>= g) :=
+  Sim.bind (Sim.id_refl x) (fun a _ => h a)
+
+theorem Sim.actsG {α α'} {φ : α → α'} {P : α → Prop} (acts : List Rs.Act)
+    {F : Except ZErr Unit → M α} {F' : Except ZErr Unit → M α'}
+    (h : ∀ r, Sim φ P (F r) (F' r)) : Sim φ P (actsG acts F) (actsG acts F') := by
+  induction acts with
+  | nil => exact h _
+  | cons a as ih =>
+    cases a <;> simp only [WriterSM.actsG] <;> refine Sim.congr _ fun r => ?_ <;> cases r
+    · exact h _
+    · exact ih
+    · exact h _
+    · exact ih
+
+
+/-! ### `end_extra_data` -/
+
+/-- a serialiser that wrote nothing: only its outcome matters -/
+theorem runW_nolog {σ α} (x : Rs.W Rs.Act α) (st : σ) (h : x.log = []) :
+    (Rs.S.runW x st).toM = match x.res with
+      | some (.ok a) => pure (.ok a)
+      | some (.error e) => pure (.error (Rs.zerr e, st))
+      | none => M.panic "rs2lean: checked operation" := by
+  simp only [Rs.S.runW, h, Rs.S.replay]
+  rfl
+
+theorem zerr_eq (e : Rs.ZipErr) : Rs.zerr e = zerrOf e := by
+  cases e with
+  | Io k => cases k <;> rfl
+  | _ => rfl
+
+theorem seek_attempt_bind {β} (n : Nat) (k : Except ZErr UInt64 → M β) :
+    (M.attempt (Rs.R.seek (.start n)) >>= k) = (M.attempt (M.seek (.start n)) >>= fun r => match r with
+      | .ok p => k (.ok (UInt64.ofNat p))
+      | .error e => k (.error e)) := by
+  simp only [Rs.R.seek, attempt_bind_bind]
+  refine bind_congr fun r => ?_
+  cases r <;> rfl
+
+/-- outcome (a `u64` value read as `Nat`) and final state of a generated method as a step of the model -/
+def absRn (r : Except ZErr UInt64 × Gen.ZipWriter) : Except ZErr Nat × WState := (r.1.map UInt64.toNat, absW r.2)
+
+theorem sim_end_extra_data (ext : Rs.S.Ext) (g : Gen.ZipWriter)
+    (hf : ∀ f, g.files.getLast? = some f →
+      f.extra_field.length ≤ 9223372036854775807 ∧
+      f.data_start.toNat + f.extra_field.length < 18446744073709551616 ∧
+      f.header_start.toNat + 28 < 18446744073709551616) :
+    Sim absRn (fun p => p.2.files.map fkey = g.files.map fkey) (Rs.S.run (Gen.ZipWriter.end_extra_data ext g))
+      (endExtraData ext.toWExt (absW g)) := by
+  unfold Gen.ZipWriter.end_extra_data endExtraData
+  cases hx : g.writing_to_extra_field
+  · ssimp [hx, absW]
+    refine Sim.leaf ?_ rfl
+    simp only [absRn, absW, hx, Except.map]
+  · cases hcl : g.inner.isClosed
+    · cases hl : g.files.getLast? with
+      | none =>
+        ssimp [hx, absW, hcl, Rs.S.is_closed, Rs.last, hl, getLastOpt_map, Option.map_none]
+        exact Sim.panic _ _
+      | some f =>
+        obtain ⟨hlen, hds, hhs⟩ := hf f hl
+        obtain ⟨vlog, vres⟩ := tie_validate_extra_data (ω := Rs.Act) f (dataOf f) (view_dataOf f) hlen
+        have hval := runW_nolog (σ := Gen.ZipWriter) (Gen.validate_extra_data (ω := Rs.Act) f) g vlog
+        cases hv : (Gen.validate_extra_data (ω := Rs.Act) f).res with
+        | none => rw [hv] at vres; cases vres
+        | some vr =>
+          rw [hv] at vres hval
+          simp only [Option.map_some, Option.some.injEq, zerr_eq] at vres hval
+          cases vr with
+          | error ve =>
+            simp only [Except.mapError] at vres
+            ssimp [hx, absW, hcl, Rs.S.is_closed, Rs.last, hl, getLastOpt_map, Option.map_some, hval, ← vres, zerr_eq]
+            refine Sim.leaf ?_ rfl
+            simp only [absRn, absW, hx, Except.map]
+          | ok vu =>
+            simp only [Except.mapError] at vres
+            cases hco : g.writing_to_central_extra_field_only
+            · -- local (and central) extra data: appended to the local header, length back-patched
+              cases hin : g.inner with
+              | closed => rw [hin] at hcl; cases hcl
+              | compressor m l enc pending =>
+                ssimp [hx, absW, hcl, Rs.S.is_closed, Rs.last, hl, getLastOpt_map, Option.map_some, hval, ← vres, hco, hin,
+                  Rs.S.get_plain]
+                exact Sim.panic _ _
+              | storer enc =>
+                cases enc with
+                | some e =>
+                  ssimp [hx, absW, hcl, Rs.S.is_closed, Rs.last, hl, getLastOpt_map, Option.map_some, hval, ← vres, hco, hin,
+                    Rs.S.get_plain]
+                  exact Sim.panic _ _
+                | none =>
+                  obtain ⟨a1, b1⟩ := len_add f.data_start f.extra_field hds
+                  have e28 : (28 : UInt64).toNat = 28 := by decide
+                  obtain ⟨a2, b2⟩ := add_u64 f.header_start 28 (by rw [e28]; exact hhs)
+                  rw [e28] at b2
+                  ssimp [hx, absW, hcl, Rs.S.is_closed, Rs.last, hl, getLastOpt_map, Option.map_some, hval, ← vres, hco, hin,
+                    Rs.S.get_plain, Model.io, a1, a2, seek_attempt_bind, b1, b2]
+                  apply Sim.congr
+                  intro r
+                  cases r with
+                  | error e =>
+                    ssimp []
+                    refine Sim.leaf ?_ rfl
+                    simp only [absRn, absW, hx, hco, hin, Except.map]
+                  | ok u =>
+                    have c1 : f.data_start + UInt64.ofNat f.extra_field.length =
+                        UInt64.ofNat (f.data_start.toNat + f.extra_field.length) := by
+                      apply UInt64.toNat_inj.mp
+                      rw [b1, UInt64.toNat_ofNat']; omega
+                    have hsw := fun s => switchTo_via ext f.compression_method f.compression_level s
+                    cases hlf : f.large_file
+                    · have hb : 0 + f.extra_field.length % 65536 < 65536 := by omega
+                      ssimp [hlf, len_as_u16, add_len_u16_0, hb, localExtraLen, dataOf, getLastOpt_map, hl, Option.map_some,
+                        setLast_map, hsw]
+                      apply Sim.congr; intro r
+                      cases r with
+                      | error e =>
+                        ssimp []
+                        refine Sim.leaf ?_ (setLast_fkey _ _ _ hl (by simp only [fkey, hlf]))
+                        simp only [absRn, absW, setLast_map, Except.map, dataOf, b1]
+                        simp only [c1]
+                      | ok p =>
+                        ssimp []
+                        apply Sim.congr; intro r
+                        cases r with
+                        | error e =>
+                          ssimp []
+                          refine Sim.leaf ?_ (setLast_fkey _ _ _ hl (by simp only [fkey, hlf]))
+                          simp only [absRn, absW, setLast_map, Except.map, dataOf, b1]
+                          simp only [c1]
+                        | ok p =>
+                          ssimp []
+                          apply Sim.congr; intro r
+                          cases r with
+                          | error e =>
+                            ssimp []
+                            refine Sim.leaf ?_ (setLast_fkey _ _ _ hl (by simp only [fkey, hlf]))
+                            simp only [absRn, absW, setLast_map, Except.map, dataOf, b1]
+                            simp only [c1]
+                          | ok p =>
+                            ssimp []
+                            apply Sim.congr; intro r
+                            obtain ⟨r1, i1⟩ := r
+                            cases r1 with
+                            | error e =>
+                              ssimp []
+                              refine Sim.leaf ?_ (setLast_fkey _ _ _ hl (by simp only [fkey, hlf]))
+                              simp only [absRn, absW, setLast_map, Except.map, dataOf, b1]
+                              simp only [c1]
+                            | ok u =>
+                              ssimp []
+                              refine Sim.leaf ?_ (setLast_fkey _ _ _ hl (by simp only [fkey, hlf]))
+                              simp only [absRn, absW, setLast_map, Except.map, dataOf, b1]
+                              simp only [c1]
+                    · by_cases hb : 20 + f.extra_field.length % 65536 < 65536
+                      · ssimp [hlf, len_as_u16, add_len_u16_20, hb, localExtraLen, dataOf, getLastOpt_map, hl, Option.map_some,
+                          setLast_map, hsw]
+                        apply Sim.congr; intro r
+                        cases r with
+                        | error e =>
+                          ssimp []
+                          refine Sim.leaf ?_ (setLast_fkey _ _ _ hl (by simp only [fkey, hlf]))
+                          simp only [absRn, absW, setLast_map, Except.map, dataOf, b1]
+                          simp only [c1]
+                        | ok p =>
+                          ssimp []
+                          apply Sim.congr; intro r
+                          cases r with
+                          | error e =>
+                            ssimp []
+                            refine Sim.leaf ?_ (setLast_fkey _ _ _ hl (by simp only [fkey, hlf]))
+                            simp only [absRn, absW, setLast_map, Except.map, dataOf, b1]
+                            simp only [c1]
+                          | ok p =>
+                            ssimp []
+                            apply Sim.congr; intro r
+                            cases r with
+                            | error e =>
+                              ssimp []
+                              refine Sim.leaf ?_ (setLast_fkey _ _ _ hl (by simp only [fkey, hlf]))
+                              simp only [absRn, absW, setLast_map, Except.map, dataOf, b1]
+                              simp only [c1]
+                            | ok p =>
+                              ssimp []
+                              apply Sim.congr; intro r
+                              obtain ⟨r1, i1⟩ := r
+                              cases r1 with
+                              | error e =>
+                                ssimp []
+                                refine Sim.leaf ?_ (setLast_fkey _ _ _ hl (by simp only [fkey, hlf]))
+                                simp only [absRn, absW, setLast_map, Except.map, dataOf, b1]
+                                simp only [c1]
+                              | ok u =>
+                                ssimp []
+                                refine Sim.leaf ?_ (setLast_fkey _ _ _ hl (by simp only [fkey, hlf]))
+                                simp only [absRn, absW, setLast_map, Except.map, dataOf, b1]
+                                simp only [c1]
+
+                      · ssimp [hlf, len_as_u16, add_len_u16_20, hb, localExtraLen, dataOf, getLastOpt_map, hl, Option.map_some,
+                          setLast_map, hsw]
+                        exact Sim.panic _ _
+            · ssimp [hx, absW, hcl, Rs.S.is_closed, Rs.last, hl, getLastOpt_map, Option.map_some, hval, ← vres, hco]
+              refine Sim.leaf ?_ rfl
+              simp only [absRn, absW, hx, Except.map, UInt64.ofNat_toNat]
+              rfl
+    · ssimp [hx, absW, hcl, Rs.S.is_closed]
+      refine Sim.leaf ?_ rfl
+      simp only [absRn, absW, hx, Except.map]
+
+
+
+/-- `end_extra_data`: equal to the model's `endExtraData` (validation verdict, the extra data appended to
+the local header, the length back-patch at `header_start + 28`, `data_start` / `stats.start` moved, the
+switch to the entry's encoder, the two flags), for every writer value, device and fault index. -/
+theorem tie_end_extra_data (ext : Rs.S.Ext) (g : Gen.ZipWriter)
+    (hf : ∀ f, g.files.getLast? = some f →
+      f.extra_field.length ≤ 9223372036854775807 ∧
+      f.data_start.toNat + f.extra_field.length < 18446744073709551616 ∧
+      f.header_start.toNat + 28 < 18446744073709551616) :
+    Refines (absRn <$> Rs.S.run (Gen.ZipWriter.end_extra_data ext g)) (endExtraData ext.toWExt (absW g)) :=
+  (sim_end_extra_data ext g hf).refines
+
+/-! ### `finish_file` -/
+
+theorem toM_bind_run {σ α β} (x : Rs.S σ (α × σ)) (K : Except (ZErr × σ) (α × σ) → M β) :
+    (x.toM >>= K) = (Rs.S.run x >>= fun p => K (match p with
+      | (.ok a, s) => .ok (a, s)
+      | (.error e, s) => .error (e, s))) := by
+  simp only [Rs.S.run, bind_assoc]
+  refine bind_congr fun r => ?_
+  cases r with
+  | ok p => obtain ⟨a, s⟩ := p; simp only [pure_bind]
+  | error p => obtain ⟨e, s⟩ := p; simp only [pure_bind]
+
+theorem attempt_panic_bind {α β} (s : String) (k : Except ZErr α → M β) :
+    (M.attempt (M.panic s : M α) >>= k) = M.panic s := rfl
+
+theorem position_attempt_bind {β} (k : Except ZErr UInt64 → M β) :
+    (M.attempt Rs.S.position >>= k) = (M.attempt M.streamPosition >>= fun r => match r with
+      | .ok p => if p < 18446744073709551616 then k (.ok (UInt64.ofNat p)) else M.panic Rs.S.OVF
+      | .error e => k (.error e)) := by
+  simp only [Rs.S.position, attempt_bind_bind]
+  refine bind_congr fun r => ?_
+  cases r with
+  | error e => rfl
+  | ok p =>
+    simp only []
+    split
+    · rfl
+    · rfl
+
+theorem setLast_setLast {α} (l : List α) (a b : α) : Rs.setLast (Rs.setLast l a) b = Rs.setLast l b := by
+  unfold Rs.setLast
+  cases h : l.reverse with
+  | nil => simp only [List.reverse_nil]
+  | cons x xs => simp only [List.reverse_reverse]
+
+theorem msetLast_setLast (l : List FileData) (a b : FileData) : Model.setLast (Model.setLast l a) b = Model.setLast l b := by
+  unfold Model.setLast
+  cases h : l.reverse with
+  | nil => simp only [List.reverse_nil]
+  | cons x xs => simp only [List.reverse_reverse]
+
+theorem Sim.ovf_panic {α α'} {φ : α → α'} {P : α → Prop} (Y : M α') : Sim φ P (M.panic Rs.S.OVF) Y :=
+  fun fa d => Or.inl rfl
+
+theorem sub_ofNat (p : Nat) (st : UInt64) (hp : p < 18446744073709551616) :
+    Rs.Arith.sub (UInt64.ofNat p) st =
+      if p < st.toNat then none else some (UInt64.ofNat (p - st.toNat)) := by
+  have e : (UInt64.ofNat p).toNat = p := by simp only [UInt64.toNat_ofNat']; omega
+  simp only [Rs.Arith.sub, e]
+  by_cases h : st.toNat ≤ p
+  · have h' : ¬ p < st.toNat := by omega
+    simp only [h, h', ↓reduceIte]
+    refine congrArg some ?_
+    apply UInt64.toNat_inj.mp
+    rw [UInt64.toNat_sub_of_le _ _ (UInt64.le_iff_toNat_le.mpr (by rw [e]; exact h)), e, UInt64.toNat_ofNat']
+    omega
+  · have h' : p < st.toNat := by omega
+    simp only [h, h', ↓reduceIte]
+
+/-- `update_local_file_header(writer, file)?` inside a method: the sink actions of the translated
+serialiser are the I/O steps of the model's `updateLocalHeader` -/
+theorem sim_update_header {σ α β : Type} {φ : α → Except ZErr β × WState} {P : α → Prop}
+    (file : Gen.ZipFileData) (gm : FileData) (hv : view file gm)
+    (hpos : gm.headerStart.toNat + 34 + gm.fileName.length < 18446744073709551616)
+    (st : σ) (s : WState) (K : Except (ZErr × σ) Unit → M α) (k : Unit → M (Except ZErr β × WState))
+    (hok : Sim φ P (K (.ok ())) (k ()))
+    (herr : ∀ e, Sim φ P (K (.error (e, st))) (pure (.error e, s))) :
+    Sim φ P ((Rs.S.runW (Gen.update_local_file_header (ω := Rs.Act) file) st).toM >>= K)
+      (updateLocalHeader s gm k) := by
+  obtain ⟨acts, r, hX, hM⟩ := tie_update_local_file_header file gm hv hpos
+  rw [hX, hM, ioActs_eq]
+  simp only [Rs.S.runW, bind_assoc, attempt_replay, actsG_bind]
+  apply Sim.actsG
+  intro rr
+  cases rr with
+  | error e => simp only [pure_bind]; exact herr e
+  | ok u =>
+    cases r with
+    | ok u' => simp only [pure_bind]; exact hok
+    | error e => simp only [pure_bind, zerr_eq]; exact herr _
+
+set_option hygiene false in
+/-- the part of `finish_file` after the encryption layer is finished (used twice) -/
+macro "after_enc" g:ident hf:ident hx:term : tactic => `(tactic| (
+  by_cases hwr0 : ($g).writing_raw = true
+  rotate_left
+  · have hwr : ($g).writing_raw = false := by simpa using hwr0
+    cases hl : ($g).files.getLast? with
+    | none =>
+      ssimp [hwr, Rs.last, hl, getLastOpt_map, Option.map_none]
+      refine Sim.leaf ?_ rfl
+      simp only [absR, absW, $hx:term, hwr]
+    | some f =>
+      have hhs := $hf f hl
+      ssimp [hwr, Rs.last, hl, getLastOpt_map, Option.map_some, Model.io, position_attempt_bind, setLast_setLast,
+        msetLast_setLast, setLast_map, UInt64.ofNat_toNat]
+      apply Sim.congr; intro r
+      cases r with
+      | error e =>
+        ssimp []
+        refine Sim.leaf ?_ (setLast_fkey _ _ _ hl (by simp only [fkey]))
+        simp only [absR, absW, setLast_map, dataOf, $hx:term, hwr, UInt64.ofNat_toNat]
+        try rfl
+      | ok p =>
+        by_cases hp : p < 18446744073709551616
+        · by_cases hlt : p < ($g).stats.start.toNat
+          · ssimp [hp, sub_ofNat p _ hp, hlt, Rs.S.okOr]
+            refine Sim.leaf ?_ (setLast_fkey _ _ _ hl (by simp only [fkey]))
+            simp only [absR, absW, setLast_map, dataOf, $hx:term, hwr, UInt64.ofNat_toNat]
+            try rfl
+          · have e64 : (UInt64.ofNat p).toNat = p := by simp only [UInt64.toNat_ofNat']; omega
+            ssimp [hp, sub_ofNat p _ hp, hlt, Rs.S.okOr, seek_attempt_bind, e64]
+            refine sim_update_header _ _ ?_ ?_ _ _ _ _ ?_ ?_
+            · exact view_dataOf _
+            · exact hhs
+            · ssimp []
+              apply Sim.congr; intro r
+              cases r with
+              | error e =>
+                ssimp []
+                refine Sim.leaf ?_ (setLast_fkey _ _ _ hl (by simp only [fkey]))
+                simp only [absR, absW, setLast_map, dataOf, $hx:term, hwr, UInt64.ofNat_toNat]
+                try rfl
+              | ok q =>
+                ssimp []
+                refine Sim.leaf ?_ (setLast_fkey _ _ _ hl (by simp only [fkey]))
+                simp only [absR, absW, setLast_map, dataOf, $hx:term, hwr, UInt64.ofNat_toNat]
+                try rfl
+            · intro e
+              ssimp []
+              refine Sim.leaf ?_ (setLast_fkey _ _ _ hl (by simp only [fkey]))
+              simp only [absR, absW, setLast_map, dataOf, $hx:term, hwr, UInt64.ofNat_toNat]
+              try rfl
+        · ssimp [hp]
+          exact Sim.ovf_panic _
+  · have hwr : ($g).writing_raw = true := hwr0
+    ssimp [hwr]
+    refine Sim.leaf ?_ rfl
+    simp only [absR, absW, $hx:term, hwr]))
+
+set_option hygiene false in
+/-- `finish_file` from `switch_to(Stored)` on (the whole method when no extra data is pending) -/
+macro "finish_rest" g:ident hf:ident hx:term : tactic => `(tactic| (
+  apply Sim.congr; intro p
+  obtain ⟨r1, i1⟩ := p
+  cases r1 with
+  | error e =>
+    ssimp []
+    refine Sim.leaf ?_ rfl
+    simp only [absR, absW, $hx:term]
+  | ok u =>
+    ssimp []
+    cases i1 with
+    | closed => ssimp []; exact Sim.panic _ _
+    | compressor m l enc pending => ssimp []; exact Sim.panic _ _
+    | storer enc =>
+      cases enc with
+      | none =>
+        ssimp [Rs.S.get_plain]
+        after_enc $g $hf $hx
+      | some e =>
+        by_cases hb : e.buffer.length < 12
+        · ssimp [Rs.S.get_plain, Rs.S.zc_finish, hb, attempt_panic_bind]
+          exact Sim.panic _ _
+        · ssimp [Rs.S.get_plain, Rs.S.zc_finish, hb, attempt_bind_bind, Model.io, Rs.Hasher.finalize]
+          apply Sim.congr; intro r
+          cases r with
+          | error er =>
+            ssimp []
+            refine Sim.leaf ?_ rfl
+            simp only [absR, absW, $hx:term]
+            try rfl
+          | ok u1 =>
+            ssimp []
+            apply Sim.congr; intro r
+            cases r with
+            | error er =>
+              ssimp []
+              refine Sim.leaf ?_ rfl
+              simp only [absR, absW, $hx:term]
+              try rfl
+            | ok u2 =>
+              ssimp []
+              after_enc $g $hf $hx))
+
+theorem sim_finish_file (ext : Rs.S.Ext) (g : Gen.ZipWriter)
+    (hf : ∀ f, g.files.getLast? = some f →
+      f.extra_field.length ≤ 9223372036854775807 ∧
+      f.data_start.toNat + f.extra_field.length < 18446744073709551616 ∧
+      f.header_start.toNat + 34 + f.file_name.length < 18446744073709551616) :
+    Sim absR (fun p => p.2.files.map fkey = g.files.map fkey) (Rs.S.run (Gen.ZipWriter.finish_file ext g))
+      (finishFile ext.toWExt (absW g)) := by
+  have hsw : ∀ s, switchTo ext.toWExt .stored none s =
+      (Rs.S.switch_to ext s.inner Gen.CompressionMethod.Stored none >>= fun p => pure (p.1, { s with inner := p.2 })) :=
+    fun s => switchTo_via ext .Stored none s
+  unfold Gen.ZipWriter.finish_file finishFile
+  cases hx : g.writing_to_extra_field
+  · have hf' : ∀ f, g.files.getLast? = some f → f.header_start.toNat + 34 + f.file_name.length < 18446744073709551616 :=
+      fun f h => (hf f h).2.2
+    ssimp [hx, absW, hsw]
+    finish_rest g hf' hx
+  · have hf1 : ∀ f, g.files.getLast? = some f →
+        f.extra_field.length ≤ 9223372036854775807 ∧
+        f.data_start.toNat + f.extra_field.length < 18446744073709551616 ∧
+        f.header_start.toNat + 28 < 18446744073709551616 :=
+      fun f h => ⟨(hf f h).1, (hf f h).2.1, by have := (hf f h).2.2; omega⟩
+    have hxa : (absW g).writingToExtraField = true := hx
+    ssimp [hx, hxa, hsw]
+    rw [toM_bind_run (Gen.ZipWriter.end_extra_data ext g)]
+    refine Sim.bind (sim_end_extra_data ext g hf1) ?_
+    intro p hp
+    obtain ⟨r, g2⟩ := p
+    cases r with
+    | error e =>
+      ssimp [absRn, Except.map]
+      refine Sim.leaf ?_ hp
+      simp only [absR]
+    | ok ds =>
+      have hf2 : ∀ f, g2.files.getLast? = some f →
+          f.header_start.toNat + 34 + f.file_name.length < 18446744073709551616 := by
+        intro f2 h2
+        have h3 : (g2.files.map fkey).getLast? = some (fkey f2) := by rw [List.getLast?_map, h2]; rfl
+        rw [hp, List.getLast?_map] at h3
+        cases h4 : g.files.getLast? with
+        | none => rw [h4] at h3; cases h3
+        | some f =>
+          rw [h4] at h3
+          simp only [Option.map_some, Option.some.injEq] at h3
+          have := (hf f h4).2.2
+          have e1 : f.header_start = f2.header_start :=
+            show (fkey f).header_start = (fkey f2).header_start from congrArg _ h3
+          have e2 : f.file_name = f2.file_name :=
+            show (fkey f).file_name = (fkey f2).file_name from congrArg _ h3
+          rw [← e1, ← e2]; exact this
+      refine Sim.mono (P := fun q => q.2.files.map fkey = g2.files.map fkey) ?_ (fun a h => h.trans hp)
+      ssimp [absRn, Except.map, absW]
+      finish_rest g2 hf2 Nat.add_zero
+
+
+/-- `finish_file`: a refinement of the model's `finishFile` (the implicit `end_extra_data`, the switch back to
+`Stored`, the ZipCrypto finish, the early return without entries, crc / sizes from the statistics and
+`file_end - stats.start` (checked), the header back-patch, the seek back, the two flags). -/
+theorem tie_finish_file (ext : Rs.S.Ext) (g : Gen.ZipWriter)
+    (hf : ∀ f, g.files.getLast? = some f →
+      f.extra_field.length ≤ 9223372036854775807 ∧
+      f.data_start.toNat + f.extra_field.length < 18446744073709551616 ∧
+      f.header_start.toNat + 34 + f.file_name.length < 18446744073709551616) :
+    Refines (absR <$> Rs.S.run (Gen.ZipWriter.finish_file ext g)) (finishFile ext.toWExt (absW g)) :=
+  (sim_finish_file ext g hf).refines
 
 end ZipVerif.Tie.WriterSM
